@@ -140,7 +140,11 @@ void RunScenario(ck::Node& n, const Layout& L, const Scen& s, fp::Out& o)
     auto V = [&](const std::string& key, const std::string& what) { o.violation("C19 " + key + " | " + tag, what, "scenario: " + tag); };
     auto& bm = n.chainman().m_blockman;
     Chainstate& cs = n.cs();
+    const bool timing = getenv("VX_C19_TIME") != nullptr;
+    auto t0 = std::chrono::steady_clock::now();
+    auto lap = [&](const char* what) { if (timing) { auto t1 = std::chrono::steady_clock::now(); fprintf(stderr, "[t] %s %.1fms\n", what, std::chrono::duration<double, std::milli>(t1 - t0).count()); t0 = t1; } };
     PrivateBlocksDir(n, /*will_write=*/s.mode == 2);
+    lap("privdir");
     std::vector<int> ref_locks = s.locks; // reference lock positions (moved back by a reorg)
     {
         LOCK(cs_main);
@@ -215,6 +219,7 @@ void RunScenario(ck::Node& n, const Layout& L, const Scen& s, fp::Out& o)
         }
         if (s.mode == 0) const_cast<uint64_t&>(bm.m_opts.prune_target) = (uint64_t)s.target_mib * MIB;
     }
+    lap("pre-state");
     // ---- the real pruning pass
     if (s.mode == 0) {
         { LOCK(cs_main); bm.m_check_for_pruning = true; }
@@ -223,6 +228,7 @@ void RunScenario(ck::Node& n, const Layout& L, const Scen& s, fp::Out& o)
     } else {
         PruneBlockFilesManual(cs, manual);
     }
+    lap("prune-call");
     // ---- post-state
     std::set<int> removed;
     {
@@ -264,6 +270,7 @@ void RunScenario(ck::Node& n, const Layout& L, const Scen& s, fp::Out& o)
         }
         o.count("blocks_pruned", cleared);
     }
+    lap("flags+read");
     for (auto& [f, sz] : fsize)
         if (sz && !removed.count(f) && !FileExists(n, "blk", f)) V("kept-file-missing file=" + std::to_string(f), "block file disappeared although it was not pruned");
     // ---- liveness / frugality of the automatic pass
@@ -302,6 +309,7 @@ void RunScenario(ck::Node& n, const Layout& L, const Scen& s, fp::Out& o)
     if (!removed.empty() || lock_binding || snap_binding) o.distinct("nontrivial", tag);
     if (vx::fnv1a(tag) % 997 == 0) o.sample(tag + " -> removed " + std::to_string(removed.size()) + " of " + std::to_string(by_file.size()) + " files");
     RemovePrivateDir(n);
+    lap("rest");
 }
 
 std::vector<std::vector<int>> LockSets(int tip, bool big)
